@@ -730,6 +730,27 @@ fn exec_ops(sc: &C12Sc, log: &mut Log, out: &mut Outcome) {
                             out.violate(clause, site, format!("op {i}: help request {:?} for level `{}`: {d}\n{}", argv, level.name, crate::cmdsim::safe_slice(rendered, 0, 1500)));
                             return;
                         }
+                        // `--help` is the long form: an argument that is only hidden from SHORT help is listed (its
+                        // mere existence makes long help differ from short help, whatever else the level has)
+                        if *how == HelpHow::LongFlag && is_default_template(level) && !level.has(CmdSetting::FlattenHelp) {
+                            for a in level.args.iter().chain(inherited.iter().copied()).filter(|a| a.hide_short_help && !a.hide && !a.hide_long_help) {
+                                let toks: Vec<String> = match (&a.long, a.short) {
+                                    (Some(l), _) => vec![format!("--{l}")],
+                                    (None, Some(c)) => vec![format!("-{c}")],
+                                    _ => {
+                                        if a.value_names.is_empty() {
+                                            vec![a.id.to_uppercase(), a.id.clone()]
+                                        } else {
+                                            a.value_names.clone()
+                                        }
+                                    }
+                                };
+                                if !toks.iter().any(|t| contains_token(rendered, t)) {
+                                    out.violate("visible-missing", "long-help-error/hide-short-help-argument", format!("op {i}: help request {:?} (long form) for level `{}` does not list argument {}, which is hidden from short help only\n{}", argv, level.name, a.id, crate::cmdsim::safe_slice(rendered, 0, 1500)));
+                                    return;
+                                }
+                            }
+                        }
                         if let Some(d) = wrong_level(&sc.spec, level, &chain, rendered) {
                             out.violate("help-of-wrong-level", format!("{how:?}"), format!("op {i}: help request {:?} for level `{}`: {d}\n{}", argv, level.name, crate::cmdsim::safe_slice(rendered, 0, 1500)));
                             return;
